@@ -140,6 +140,9 @@ impl XRefTable {
                 XRef::Free { next_obj_nr, gen_nr } => (0, next_obj_nr, gen_nr),
                 XRef::Raw { pos, gen_nr } => (1, pos as u64, gen_nr),
                 XRef::Stream { stream_id, index } => (2, stream_id, index as u64),
+                // a number below /Size that no section defines (a gap between subsections, or the
+                // numbers a too generous /Size leaves at the end): an object that does not exist
+                XRef::Invalid => (0, 0, 0),
                 x => bail!("invalid xref entry: {:?}", x)
             };
             data.push(t);
